@@ -27,6 +27,7 @@ import (
 	"github.com/nspcc-dev/neo-go/pkg/util"
 	"github.com/nspcc-dev/neo-go/pkg/vm/vmstate"
 	"github.com/nspcc-dev/neo-go/pkg/wallet"
+	"github.com/nspcc-dev/neofs-node/internal/verifhook"
 	"github.com/nspcc-dev/neofs-node/pkg/util/rand"
 	"go.uber.org/zap"
 )
@@ -146,6 +147,11 @@ func (c *Client) ProbeNotary() (res bool) {
 //
 // This function must be invoked with notary enabled otherwise it throws panic.
 func (c *Client) DepositNotary(ctx context.Context, amount fixedn.Fixed8, delta uint32) error {
+	if verifhook.Enabled {
+		if ok, r := verifhook.Morph(c, "DepositNotary", amount, delta); ok {
+			return verifhook.ResErr(r, 0)
+		}
+	}
 	var conn = c.conn.Load()
 
 	if conn == nil {
@@ -178,6 +184,11 @@ func (c *Client) DepositNotary(ctx context.Context, amount fixedn.Fixed8, delta 
 //
 // This function must be invoked with notary enabled otherwise it throws panic.
 func (c *Client) DepositEndlessNotary(ctx context.Context, amount fixedn.Fixed8) error {
+	if verifhook.Enabled {
+		if ok, r := verifhook.Morph(c, "DepositEndlessNotary", amount); ok {
+			return verifhook.ResErr(r, 0)
+		}
+	}
 	var conn = c.conn.Load()
 
 	if conn == nil {
@@ -233,6 +244,11 @@ func (c *Client) depositNotary(ctx context.Context, conn *connection, amount fix
 //
 // This function must be invoked with notary enabled otherwise it throws panic.
 func (c *Client) GetNotaryDeposit() (res int64, err error) {
+	if verifhook.Enabled {
+		if ok, r := verifhook.Morph(c, "GetNotaryDeposit"); ok {
+			return verifhook.Res[int64](r, 0), verifhook.ResErr(r, 1)
+		}
+	}
 	var conn = c.conn.Load()
 
 	if conn == nil {
@@ -267,6 +283,11 @@ func (c *Client) GetNotaryDeposit() (res int64, err error) {
 //
 // This function must be invoked with notary enabled otherwise it throws panic.
 func (c *Client) UpdateNotaryList(notaries keys.PublicKeys, txHash util.Uint256) error {
+	if verifhook.Enabled {
+		if ok, r := verifhook.Morph(c, "UpdateNotaryList", notaries, txHash); ok {
+			return verifhook.ResErr(r, 0)
+		}
+	}
 	if c.notary == nil {
 		panic(notaryNotEnabledPanicMsg)
 	}
@@ -291,6 +312,11 @@ func (c *Client) UpdateNotaryList(notaries keys.PublicKeys, txHash util.Uint256)
 //
 // This function must be invoked with notary enabled otherwise it throws panic.
 func (c *Client) UpdateNeoFSAlphabetList(alphas keys.PublicKeys, txHash util.Uint256) error {
+	if verifhook.Enabled {
+		if ok, r := verifhook.Morph(c, "UpdateNeoFSAlphabetList", alphas, txHash); ok {
+			return verifhook.ResErr(r, 0)
+		}
+	}
 	if c.notary == nil {
 		panic(notaryNotEnabledPanicMsg)
 	}
@@ -317,6 +343,11 @@ func (c *Client) UpdateNeoFSAlphabetList(alphas keys.PublicKeys, txHash util.Uin
 // Note: true await flag always means additional subscription for [Client] which
 // is always limited on server side, use it carefully.
 func (c *Client) NotaryInvoke(ctx context.Context, contract util.Uint160, await bool, fee fixedn.Fixed8, nonce uint32, vub *uint32, method string, args ...any) (util.Uint256, error) {
+	if verifhook.Enabled {
+		if ok, r := verifhook.Morph(c, "NotaryInvoke", contract, await, fee, nonce, vub, method, args); ok {
+			return verifhook.Res[util.Uint256](r, 0), verifhook.ResErr(r, 1)
+		}
+	}
 	if c.notary == nil {
 		return util.Uint256{}, c.Invoke(ctx, contract, false, false, fee, method, args...)
 	}
@@ -332,6 +363,11 @@ func (c *Client) NotaryInvoke(ctx context.Context, contract util.Uint160, await 
 // Note: true await flag always means additional subscription for [Client] which
 // is always limited on server side, use it carefully.
 func (c *Client) NotaryInvokeNotAlpha(contract util.Uint160, await bool, fee fixedn.Fixed8, method string, args ...any) error {
+	if verifhook.Enabled {
+		if ok, r := verifhook.Morph(c, "NotaryInvokeNotAlpha", contract, await, fee, method, args); ok {
+			return verifhook.ResErr(r, 0)
+		}
+	}
 	if c.notary == nil {
 		return c.Invoke(context.TODO(), contract, await, false, fee, method, args...)
 	}
@@ -345,6 +381,11 @@ func (c *Client) NotaryInvokeNotAlpha(contract util.Uint160, await bool, fee fix
 // processing, CallWithAlphabetWitness waits for it to be successfully executed.
 // Waiting is done within ctx, [ErrTxAwaitTimeout] is returned when it is done.
 func (c *Client) CallWithAlphabetWitness(ctx context.Context, contract util.Uint160, method string, args []any) error {
+	if verifhook.Enabled {
+		if ok, r := verifhook.Morph(c, "CallWithAlphabetWitness", contract, method, args); ok {
+			return verifhook.ResErr(r, 0)
+		}
+	}
 	nonce := rand.Uint32()
 
 	notaryActor, mainTx, fbTx, vub, err := c.sendNotaryRequest(false, false, contract, nonce, nil, method, args...)
@@ -385,6 +426,11 @@ func (c *Client) CallWithAlphabetWitness(ctx context.Context, contract util.Uint
 //   - true await flag always means additional subscription for [Client] which
 //     is always limited on server side, use it carefully.
 func (c *Client) NotarySignAndInvokeTX(mainTx *transaction.Transaction, await bool) error {
+	if verifhook.Enabled {
+		if ok, r := verifhook.Morph(c, "NotarySignAndInvokeTX", mainTx, await); ok {
+			return verifhook.ResErr(r, 0)
+		}
+	}
 	var conn = c.conn.Load()
 
 	if conn == nil {
@@ -620,6 +666,11 @@ func (c *Client) logNotaryCall(method string, vub uint32, mainTx util.Uint256, f
 }
 
 func (c *Client) runAlphabetNotaryScript(ctx context.Context, script []byte, nonce uint32, await, invokedByAlpha bool) error {
+	if verifhook.Enabled {
+		if ok, r := verifhook.Morph(c, "runAlphabetNotaryScript", script, nonce, await, invokedByAlpha); ok {
+			return verifhook.ResErr(r, 0)
+		}
+	}
 	if c.notary == nil {
 		panic("notary support is not enabled")
 	}
@@ -879,6 +930,11 @@ func CalculateNotaryDepositAmount(c *Client, gasMul, gasDiv int64) (fixedn.Fixed
 // CalculateNonceAndVUB calculates nonce and ValidUntilBlock values
 // based on transaction hash.
 func (c *Client) CalculateNonceAndVUB(hash util.Uint256) (nonce uint32, vub uint32, err error) {
+	if verifhook.Enabled {
+		if ok, r := verifhook.Morph(c, "CalculateNonceAndVUB", hash); ok {
+			return verifhook.Res[uint32](r, 0), verifhook.Res[uint32](r, 1), verifhook.ResErr(r, 2)
+		}
+	}
 	var conn = c.conn.Load()
 
 	if conn == nil {
